@@ -27,12 +27,14 @@ func (c *ColUUID) DecodeColumn(r *Reader, rows int) error {
 func (c ColUUID) EncodeColumn(b *Buffer) {
 	const size = 16
 	offset := len(b.Buf)
+	start := offset
 	b.Buf = append(b.Buf, make([]byte, size*len(c))...)
 	for _, v := range c {
 		copy(b.Buf[offset:offset+size], v[:])
 		offset += size
 	}
-	bswap.Swap64(b.Buf) // BE <-> LE
+	// Swapping only appended values, not the data already in buffer.
+	bswap.Swap64(b.Buf[start:]) // BE <-> LE
 }
 
 // WriteColumn encodes ColUUID rows to *Writer.
